@@ -67,6 +67,18 @@ def cases(tier):
                 yield {"nn": nn, "levels": sel, "footprint": fp, "analytic": an, "prec": pr, "cell": 0.5}
 
 
+def subset_cases(tier):
+    """EVERY ascending selection of 4 and 5 (thorough: 4 to 6) nodes of a taller column - regular strides, almost regular ones
+    (first, second and last node on a stride, an interior one off it), runs, gaps - in numerical and analytic mode"""
+    nn, sizes = (8, (4, 5)) if tier == "quick" else (10, (4, 5, 6))
+    for k in sizes:
+        for sel in itertools.combinations(range(nn), k):
+            for fp, an in ((False, False), (True, False), (False, True)):
+                if an and tier == "quick" and (sum(sel) % 3):
+                    continue
+                yield {"nn": nn, "levels": list(sel), "footprint": fp, "analytic": an, "prec": "double"}
+
+
 def case_levels(case):
     S0 = sl.solver()
     seed = int(os.environ.get("VERIF_SEED", "0") or 0)
@@ -253,6 +265,7 @@ def run(ctx):
     errorpaths.run_threaded(ctx, case_levels, [c for c in cases(ctx.tier) if len(c['levels']) == 3 and c['prec'] == 'double' and not c['analytic'] and 'cell' not in c and 'zscale' not in c][:2], threads=(3,))
     ctx.run_cases(errorpaths.case_blocked_pyfftw, [{"blocked": "pyfftw"}], sub="pyfftw cannot be imported: refuse or be right", chunksize=1)
     res = ctx.run_cases(case_levels, cases(ctx.tier), sub="levels")
+    ctx.run_cases(case_levels, subset_cases(ctx.tier), sub="every ascending selection of 4-5 (thorough 4-6) nodes of an 8- (10-) node column")
     ctx.run_cases(case_cached, cache_cases(ctx.tier), sub="levels-through-cache")
     ctx.run_cases(case_drivers, [{"levels": lv, "footprint": fp, "late": late} for lv in ([1, 3], [4, 0, 2], [0]) for fp in (True, False) for late in (False, True) if not (late and lv == [0])], sub="levels-through-drivers", chunksize=1)
     ctx.cov["unsorted_selections_cases"] = int(sum(1 for r in res if r.get("obs", {}).get("unsorted")))
